@@ -14,7 +14,7 @@
 #include <gmssl/x509_ext.h>
 
 /* ------------------------------------------------------------- single ops */
-#define MAX_EPH 48
+#define MAX_EPH 80
 typedef struct OpOut {
 	int status;                 /* 1 = the operation (sequence) reported success */
 	int neph;
@@ -123,6 +123,24 @@ static int op_sign_ctx_reuse(void)
 	}
 	g_oo->valid = ok;
 	return 1;
+}
+static int op_sign_ctx_continue(void)
+{
+	/* one long-lived context, 72 signatures; a failing sm2_sign_finish is noted and the caller carries on
+	 * with the same context, as an application retrying would */
+	SM2_SIGN_CTX c; uint8_t sig[SM2_MAX_SIGNATURE_SIZE]; size_t siglen;
+	int ok = 1, failed = 0;
+	if (sm2_sign_init(&c, &g_k1, SM2_DEFAULT_ID, SM2_DEFAULT_ID_LENGTH) != 1) return 0;
+	for (int i = 0; i < 72; i++) {
+		siglen = 0;
+		if (sm2_sign_update(&c, g_msg, sizeof(g_msg)) != 1) return 0;
+		if (sm2_sign_finish(&c, sig, &siglen) != 1) { failed++; if (sm2_sign_reset(&c) != 1) return 0; continue; }
+		sig_r(sig, siglen); out_add(sig, siglen);
+		ok &= verify_msg(sig, siglen);
+		if (sm2_sign_reset(&c) != 1) return 0;
+	}
+	g_oo->valid = ok;
+	return failed ? 0 : 1;
 }
 static int op_encrypt(void)
 {
@@ -382,7 +400,7 @@ typedef struct OpDef { const char *name; int (*fn)(void); int sm9; int slow; } O
 static const OpDef g_ops[] = {
 	{ "none", NULL, 0, 0 },
 	{ "sm2_key_generate", op_keygen, 0, 0 }, { "sm2_sign", op_sign, 0, 0 }, { "sm2_sign_fixlen", op_sign_fixlen, 0, 0 },
-	{ "sm2_sign_ctx", op_sign_ctx, 0, 0 }, { "sm2_sign_ctx_reuse40", op_sign_ctx_reuse, 0, 1 },
+	{ "sm2_sign_ctx", op_sign_ctx, 0, 0 }, { "sm2_sign_ctx_reuse40", op_sign_ctx_reuse, 0, 1 }, { "sm2_sign_ctx_continue72", op_sign_ctx_continue, 0, 1 },
 	{ "sm2_encrypt", op_encrypt, 0, 0 }, { "sm2_encrypt_fixlen", op_encrypt_fixlen, 0, 0 }, { "sm2_encrypt_ctx_reuse12", op_encrypt_ctx, 0, 1 },
 	{ "sm2_ecdh", op_ecdh, 0, 0 }, { "pkcs8_encrypt", op_pkcs8, 0, 1 },
 	{ "x509_cert_sign", op_cert_sign, 0, 0 }, { "x509_req_sign", op_req_sign, 0, 0 }, { "x509_crl_sign", op_crl_sign, 0, 0 },
@@ -417,11 +435,12 @@ static void op_task(void *arg)
 /* run `count` repetitions of op on a fresh simulator with entropy stream `ent` */
 static void op_exec(const Plan *p, uint64_t ent, int count, int64_t efail_at, int efail_rest, int64_t eburst_at, int eburst_k, int eburst_val)
 {
+	/* (errno of the failing draw comes from the plan) */
 	arena_begin();
 	sim_reset((uint64_t)p->sched_seed);
 	net_reset(); mon_reset(); cap_reset();
 	rng_seed(&g_sim.nodes[0].ent, ent, 0xc11e);
-	g_sim.nodes[0].efail_at = efail_at; g_sim.nodes[0].efail_rest = efail_rest;
+	g_sim.nodes[0].efail_at = efail_at; g_sim.nodes[0].efail_rest = efail_rest; g_sim.nodes[0].efail_errno = (int)p->efail_errno;
 	g_sim.nodes[0].eburst_at = eburst_at; g_sim.nodes[0].eburst_k = eburst_k; g_sim.nodes[0].eburst_val = (uint8_t)eburst_val;
 	g_sim.on_switch = mon_on_switch;
 	memset(&g_or, 0, sizeof(g_or));
@@ -508,6 +527,8 @@ static void entropy_gen(Plan *p, uint64_t base_seed, uint64_t variant, int tier)
 		/* single ops: walk every draw index (variant order); handshakes: sampled */
 		p->efail_at = p->op ? (int64_t)((variant >> 0) % N) : (int64_t)rng_below(&v, (uint32_t)N);
 		p->efail_rest = p->op ? (int64_t)((variant / N) & 1) : rng_below(&v, 2);
+		/* what the failing getentropy reports: EIO, EINTR, EAGAIN, ENOSYS, EFAULT, EINVAL, or errno left untouched */
+		p->efail_errno = (int64_t[]){ 5, 5, 4, 11, 38, 14, 22, 0 }[rng_below(&v, 8)];
 	} else {
 		p->defect = EM_BURST;
 		p->efail_node = node;
@@ -606,6 +627,18 @@ static void entropy_run(const Plan *p, RunResult *r)
 		r->nontrivial = n->efail_fired;
 		r->fault_id = hash_bytes(0x917, (int64_t[]){ p->op, p->efail_at, p->efail_rest }, 24);
 		r->nontrivial_id = r->fault_id;
+		/* whatever the operation emitted before/after the failed draw must not repeat an ephemeral value,
+		 * and everything it emitted must verify */
+		if (n->efail_fired && g_or.nout >= 1) {
+			OpOut *oo = &g_or.out[g_or.nout - 1];
+			for (int x = 0; x < oo->neph; x++)
+				for (int y = x + 1; y < oo->neph; y++)
+					if (eph_equal(oo, x, oo, y)) {
+						rr_violation(r, "x", "%s: after entropy draw %lld (%s) failed, ephemeral value %d repeats value %d of the same stream", opn, (long long)p->efail_at, draw_site(n, site, sizeof(site)), y, x);
+						snprintf(r->vclass, sizeof(r->vclass), "entropy_reuse_after_failure:%s", opn);
+						return;
+					}
+		}
 		if (n->efail_fired && g_or.nout >= 1 && g_or.out[g_or.nout - 1].status == 1) {
 			rr_violation(r, "x", "%s reported success although its entropy draw %lld (%s) failed", opn, (long long)p->efail_at, draw_site(n, site, sizeof(site)));
 			snprintf(r->vclass, sizeof(r->vclass), "entropy_fail_ignored:%s:%s", opn, draw_site(n, site, sizeof(site)));
